@@ -28,7 +28,7 @@ def nontrivial(rec: dict, run: dict) -> bool:
 
 
 def run(tier: str, seed: int) -> int:
-    return S.check(PROP, tier, seed, nontrivial, RULE, refinement=[("EntryPointsAgree", ("cfg",), "F2/F3/F23")], corpus=True)
+    return S.check(PROP, tier, seed, nontrivial, RULE, refinement=[("EntryPointsAgree", ("cfg",), "F23 / stdin warning-only fixes")], corpus=True)
 
 
 def replay(path: str, tier: str, seed: int) -> int:
